@@ -93,7 +93,7 @@ CouponList<A>* CouponList<A>::newList(const void* bytes, size_t len, const A& al
 
   target_hll_type tgtHllType = HllSketchImpl<A>::extractTgtHllType(data[hll_constants::MODE_BYTE]);
 
-  const uint8_t lgK = data[hll_constants::LG_K_BYTE];
+  const uint8_t lgK = HllUtil<A>::checkLgK(data[hll_constants::LG_K_BYTE]);
   const bool compact = ((data[hll_constants::FLAGS_BYTE] & hll_constants::COMPACT_FLAG_MASK) ? true : false);
   const bool oooFlag = ((data[hll_constants::FLAGS_BYTE] & hll_constants::OUT_OF_ORDER_FLAG_MASK) ? true : false);
   const bool emptyFlag = ((data[hll_constants::FLAGS_BYTE] & hll_constants::EMPTY_FLAG_MASK) ? true : false);
@@ -141,7 +141,7 @@ CouponList<A>* CouponList<A>::newList(std::istream& is, const A& allocator) {
 
   const target_hll_type tgtHllType = HllSketchImpl<A>::extractTgtHllType(listHeader[hll_constants::MODE_BYTE]);
 
-  const uint8_t lgK = listHeader[hll_constants::LG_K_BYTE];
+  const uint8_t lgK = HllUtil<A>::checkLgK(listHeader[hll_constants::LG_K_BYTE]);
   const bool compact = ((listHeader[hll_constants::FLAGS_BYTE] & hll_constants::COMPACT_FLAG_MASK) ? true : false);
   const bool oooFlag = ((listHeader[hll_constants::FLAGS_BYTE] & hll_constants::OUT_OF_ORDER_FLAG_MASK) ? true : false);
   const bool emptyFlag = ((listHeader[hll_constants::FLAGS_BYTE] & hll_constants::EMPTY_FLAG_MASK) ? true : false);
